@@ -4,14 +4,15 @@ import re
 
 import gtirb
 
-from harness import asmgen
+from harness import asmgen, asmmt
 from vlib import common as C
 from vlib.runner import Prop
 
-SIZES = [(r"^nop$", 1), (r"^ret$", 1), (r"^jmp \*", 2), (r"^call \*", 2), (r"^jmp ", 2), (r"^jne ", 2), (r"^call ", 5), (r"^lea ", 7),
+SIZES = [(r"^nop$", 1), (r"^ret$", 1), (r"^(jmp|call) \*[A-Za-z_.]", 6), (r"^jmp \*", 2), (r"^call \*", 2), (r"^jmp ", 2), (r"^jne ", 2), (r"^call ", 5), (r"^lea ", 7),
          (r"^mov .*@GOTPCREL", 7), (r"^mov .*\(%rip\), %eax", 6), (r"^\.byte 1, 2, 3$", 3), (r"^\.byte 1$", 1), (r"^\.long ", 4), (r"^\.zero 3$", 3),
          (r"^\.quad ", 8), (r"^movl \$", 10), (r"^movw \$", 9), (r"^cmpb \$", 7), (r'^\.ascii "ab"$', 2), (r'^\.string "hi"$', 3), (r'^\.asciz "x"$', 2), (r"^\.[us]leb128 ", 1), (r"^\.(p2)?align ", 0)]
 OPERAND = {"jmp": 1, "jne": 1, "call": 1, "lea": 3, "mov": 3, "movl": 2, "movw": 3, "cmpb": 2}      # offset of the symbolic operand; mov t+4(%rip),%eax: 2
+THROUGH = r"^(jmp|call) \*([A-Za-z_.0-9]+)(@[A-Z]+)?()\(%rip\)"       # an indirect transfer through a memory operand that names a symbol
 STORE = r"^(movl|movw|cmpb) \$\d+, ([A-Za-z_.0-9]+)()([+-]\d+)?\(%rip\)"      # the operand is followed by an immediate
 
 
@@ -121,11 +122,12 @@ def check_result(lines, res, msyms, pie, unreachable=False):
     # ---- symbolic operands
     for sect, off, ln, size in items:
         word = ln.split()[0]
-        m = re.match(STORE, ln) or re.match(r"^(jmp|jne|call|lea|mov|\.quad|\.long) ([A-Za-z_.0-9]+)(@[A-Z]+)?([+-][A-Za-z_.0-9]+)?", ln)
-        if not m or "*" in ln or m.group(2).isdigit():
+        through = re.match(THROUGH, ln)
+        m = through or re.match(STORE, ln) or re.match(r"^(jmp|jne|call|lea|mov|\.quad|\.long) ([A-Za-z_.0-9]+)(@[A-Z]+)?([+-][A-Za-z_.0-9]+)?", ln)
+        if not m or ("*" in ln and not through) or m.group(2).isdigit():
             continue
         sec = res.sections[sect]
-        opoff = off + (0 if word.startswith(".") else (2 if ln.endswith("%eax") else OPERAND[word]))
+        opoff = off + (2 if through else 0 if word.startswith(".") else (2 if ln.endswith("%eax") else OPERAND[word]))
         e = sec.symbolic_expressions.get(opoff)
         if e is None:
             return f"`{ln}`: no symbolic expression at {sect}+{opoff}"
@@ -138,6 +140,11 @@ def check_result(lines, res, msyms, pie, unreachable=False):
         # attributes: what the operand's @VARIANT asks for on ELF x86-64 (independent of the library's table)
         variant = m.group(3) if m.lastindex and m.lastindex >= 3 else None
         want_attrs = {"@GOTPCREL": {"GOT", "PCREL"}, "@PLT": {"PLT"}}.get(variant)
+        if want_attrs is None and isinstance(e, gtirb.SymAddrConst):
+            # nothing written: a direct call or jump to a symbol without definition goes through the PLT in a position-independent
+            # module; every other operand -- the memory operand of an indirect transfer included -- is a plain reference
+            direct_transfer = word in ("jmp", "jne", "call") and not through
+            want_attrs = {"PLT"} if (pie and direct_transfer and isinstance(e.symbol.referent, gtirb.ProxyBlock)) else set()
         if want_attrs is not None:
             got_attrs = {a.name for a in e.attributes}
             if got_attrs != want_attrs:
@@ -147,14 +154,16 @@ def check_result(lines, res, msyms, pie, unreachable=False):
             addend = int(tail) if tail and re.match(r"^[+-]\d+$", tail) else 0
             if e.offset != addend:
                 return f"`{ln}`: addend {e.offset}, expected {addend}"
-        wsize = {".quad": 8, ".long": 4, "jmp": 1, "jne": 1, "call": 4, "lea": 4, "mov": 4, "movl": 4, "movw": 4, "cmpb": 4}[word]
+        wsize = 4 if through else {".quad": 8, ".long": 4, "jmp": 1, "jne": 1, "call": 4, "lea": 4, "mov": 4, "movl": 4, "movw": 4, "cmpb": 4}[word]
         if sec.symbolic_expression_sizes.get(opoff) != wsize:
             return f"`{ln}`: operand size {sec.symbolic_expression_sizes.get(opoff)}, expected {wsize}"
     # every expression belongs to some line
     expected_positions = set()
     for sect, off, ln, size in items:
         word = ln.split()[0]
-        if (re.match(STORE, ln) or re.match(r"^(jmp|jne|call|lea|mov|\.quad|\.long|\.[us]leb128) [A-Za-z_.]", ln)) and "*" not in ln:
+        if re.match(THROUGH, ln):
+            expected_positions.add((sect, off + 2))
+        elif (re.match(STORE, ln) or re.match(r"^(jmp|jne|call|lea|mov|\.quad|\.long|\.[us]leb128) [A-Za-z_.]", ln)) and "*" not in ln:
             expected_positions.add((sect, off + (0 if word.startswith(".") else (2 if ln.endswith("%eax") else OPERAND[word]))))
     for name, sec in res.sections.items():
         for p in sec.symbolic_expressions:
@@ -186,11 +195,15 @@ class C12(Prop):
                     "expressions, sizes, alignment, symbols, edges, proxies, error class)",
                     "LLVM MC (parsing, encoding, fixups) is outside the model: its events are the model's inputs; capstone is the independent disassembler of the oracle",
                     "extraction: ExtrOcamlBasic only; OCaml driver ocaml/zutil.ml + asm_main.ml"]
-    assumptions = ["x86-64 ELF, AT&T syntax; CFI directives, symbol attributes and symver directives are not in the generated vocabulary"]
+    assumptions = ["CFI directives, symbol attributes and symver directives are not in the generated vocabulary",
+                   "AArch64 / MIPS32: the size recorded for an instruction operand, and the edges of MIPS `b` and `jr $ra`, are compared with the model "
+                   "but not judged by the oracle"]
     level_rule = ("random assembly texts of 1-9 lines over: nop, jmp/jne/call to labels, module symbols (code, proxy, data, no referent) and undefined "
                   "names, @PLT and @GOTPCREL operands, indirect jmp/call, ret, lea/mov with symbolic operands (with addends), .byte/.long/.zero/.quad "
                   "(symbols, sums, differences), .ascii/.string/.asciz, .uleb128/.sleb128, .align, section switches; PIE and non-PIE targets; "
-                  "allow_undef_symbols on and off")
+                  "allow_undef_symbols on and off; plus 250 / 2500 texts for each of X64 ELF in Intel syntax, X64 PE, IA32 PE (AT&T and Intel), "
+                  "AArch64 ELF and MIPS32 ELF from per-target vocabularies (direct and indirect transfers incl. through memory operands, "
+                  ":got: / :lo12: / :got_lo12: and %hi / %lo / %got / %call16 operands, data directives, section switches)")
 
     def cases(self, tier, tag):
         rnd = C.rng(tag)
@@ -199,6 +212,17 @@ class C12(Prop):
         for _ in range(n):
             undef = rnd.random() < 0.4
             out.append((asmgen.gen_text(rnd, undef), rnd.random() < 0.5, undef, rnd.random() < 0.1))
+        return out
+
+    def cases_mt(self, tier, tag):
+        """the other targets of the property: (target, items, pie, allow_undef, trivially_unreachable)"""
+        rnd = C.rng(tag)
+        n = {"quick": 250, "thorough": 2500}[tier]
+        out = []
+        for target in asmmt.TARGETS:
+            for _ in range(n):
+                undef = rnd.random() < 0.4
+                out.append((target, asmmt.gen_items(rnd, target, undef), rnd.random() < 0.5, undef, rnd.random() < 0.1))
         return out
 
     def correspondence(self, tier, ctx):
@@ -211,8 +235,21 @@ class C12(Prop):
         for r in runs:
             if r[1].startswith("err"):
                 errs[r[1]] = errs.get(r[1], 0) + 1
-        return dict(evaluations=len(runs), distinct_nontrivial=len({r[0] for r in runs}), samples=[{"chunks": c[0], "result": r[1][:200]} for c, r in list(zip(cases, runs))[:3]],
-                    disagreements=dis[:20], dist={"texts": len(cases), "errors": errs})
+        # X64 ELF Intel syntax, X64 PE, IA32 PE (both syntaxes), AArch64, MIPS32
+        mt = self.cases_mt(tier, "c12-mt")
+        mruns = [asmmt.run(t, items, p, u, unreachable=x) for t, items, p, u, x in mt]
+        self._mruns = list(zip(mt, mruns))
+        mgot = C.run_driver("asm", [r[0] for r in mruns])
+        dis += [{"target": c[0], "text": [it["line"] for it in c[1]], "implementation": r[1][:400], "model": g[:400]} for c, r, g in zip(mt, mruns, mgot) if r[1] != g]
+        per_target = {}
+        for c, r in zip(mt, mruns):
+            d = per_target.setdefault(c[0], {"texts": 0, "errors": 0})
+            d["texts"] += 1
+            d["errors"] += 1 if r[1].startswith("err") else 0
+        return dict(evaluations=len(runs) + len(mruns), distinct_nontrivial=len({r[0] for r in runs} | {r[0] for r in mruns}),
+                    samples=[{"chunks": c[0], "result": r[1][:200]} for c, r in list(zip(cases, runs))[:3]] +
+                            [{"target": c[0], "text": [it["line"] for it in c[1]], "result": r[1][:200]} for c, r in list(zip(mt, mruns))[:6:2]],
+                    disagreements=dis[:20], dist={"texts": len(cases), "errors": errs, "other_targets": per_target})
 
     def oracle(self, tier, ctx, boosted):
         pairs = getattr(self, "_runs", None)
@@ -230,6 +267,20 @@ class C12(Prop):
             v = check_result(chunks[0], res, msyms, pie, unreach)
             if v:
                 bads.append(dict(what=v, input={"text": chunks[0], "pie": pie, "allow_undef": undef}, finding=None))
+        mpairs = getattr(self, "_mruns", None)
+        if mpairs is None or boosted:
+            mt = self.cases_mt("thorough" if boosted else tier, "c12-mt-boost")
+            mpairs = (mpairs or []) + [(c, asmmt.run(c[0], c[1], c[2], c[3], unreachable=c[4])) for c in mt]
+        for (target, items, pie, undef, unreach), (line, out, res, msyms) in mpairs:
+            text = [it["line"] for it in items]
+            if res is None:
+                if out.startswith("err") and out.split()[1] not in ("UnsupportedAssemblyError", "UndefSymbolError", "MultipleDefinitionsError", "AsmSyntaxError"):
+                    bads.append(dict(what=f"{target}: assembling a text of the supported vocabulary raises {out.split()[1]}", input={"target": target, "text": text, "pie": pie, "allow_undef": undef}, finding=None))
+                continue
+            v = asmmt.check(target, items, res, msyms, pie, unreach)
+            if v:
+                bads.append(dict(what=f"{target}: {v}", input={"target": target, "text": text, "pie": pie, "allow_undef": undef}, finding=None))
+        pairs = list(pairs) + list(mpairs)
         return dict(evaluations=len(pairs), violations=bads[:10], samples=[{"oracle": "layout, disassembly, labels, edges per instruction kind, operands and data conversion checked against the text"}])
 
     def replay(self, path):
